@@ -34,3 +34,5 @@ def run(ctx):
     for s in scns:
         ctx.count("scale_%s" % bool(s["cfg"]["lp"].get("scale")))
     base.run_twin(ctx, "linear_vs_normal_equations", scns)
+    large = [TW.gen_c02_large(ctx.seed, i) for i in range(ctx.scale(6, 60))]
+    base.run_twin(ctx, "linear_vs_normal_equations", large, shrink=False)
